@@ -323,7 +323,7 @@ impl Tzif {
         match offset_range.contains(&current_diff.0) {
             true if next_record.utoff > initial_record.utoff => Ok(LocalTimeRecordResult::Empty),
             true => Ok((next_record, initial_record).into()),
-            false if current_diff <= initial_record.utoff => Ok(initial_record.into()),
+            false if current_diff < initial_record.utoff => Ok(initial_record.into()),
             false => Ok(next_record.into()),
         }
     }
